@@ -6,6 +6,7 @@ package app
 // findBestStreamFrom; (2) cluster runs in which a cascade replica must be moved.
 
 import (
+	"strings"
 	"encoding/json"
 	"fmt"
 	"math/rand"
@@ -184,18 +185,30 @@ func TestVerifC16(t *testing.T) {
 	k := 0
 	for _, rel := range relations {
 		for _, how := range []string{"source_dies", "source_lags", "config_changes", "source_offline"} {
-			for _, pol := range []string{"flow", "frozen"} {
+			for _, pol := range []string{"flow", "frozen", "flow+race"} {
+				// "+race": right before mysync stops the cascade replica, the master commits and the replica gets the
+				// transaction through its CURRENT source while the chosen new source does not have it yet
+				race := strings.HasSuffix(pol, "+race")
+				pol = strings.TrimSuffix(pol, "+race")
 				k++
 				if k%sn != si {
 					continue
 				}
 				id := fmt.Sprintf("c16-move-%s-%s-%s", rel, how, pol)
+				if race {
+					id += "-race"
+				}
 				hosts := []string{"h1", "h2", "h3", "c1"}
 				casc := map[string]string{"c1": "h2"}
 				sc := vScenario{ID: id, Hosts: hosts, Cascade: casc, Master: "h1", Manager: "h3", W: 1, Base: 3, Req: reqSpec{Kind: "none"},
 					Policy: pol, Rounds: 14, Cfg: map[string]any{"failover": false, "stream_from_lag": 30}}
 				var rows []moveRow
+				var xhook func(s *vSim) verifsim.MyHook
+				if race {
+					xhook = func(s *vSim) verifsim.MyHook { return &c16RaceHook{s: s} }
+				}
 				res := vRun(t, &sc, vRunOpts{
+					extraHook: xhook,
 					setup: func(s *vSim) {
 						s.W.Lock()
 						c := s.W.Hosts["c1"]
@@ -319,3 +332,29 @@ func TestVerifC16(t *testing.T) {
 	meta.emit(map[string]any{"summary": true, "runs": out.n, "bases": out.n, "stragglers": vStragglers})
 	_ = verifsim.Txn("")
 }
+
+
+// c16RaceHook: a write lands between the manager's state snapshot and its STOP REPLICA on the cascade replica.
+type c16RaceHook struct {
+	s *vSim
+	n int
+}
+
+func (h *c16RaceHook) BeforeSQL(c *verifsim.SQLCall) verifsim.Decision {
+	if c.Stmt == "StopReplica" && c.At == "c1" && c.By != "" && c.By != "world" && h.n < 3 {
+		h.n++
+		h.s.W.ClientCommit("h1")
+		h.s.W.Lock()
+		src := h.s.W.Hosts["c1"].Src
+		h.s.W.Unlock()
+		// the transaction travels along the replica's current chain only
+		if src != "" && src != "h1" {
+			h.s.W.Fetch(src, -1)
+			h.s.W.Apply(src, -1)
+		}
+		h.s.W.Fetch("c1", -1)
+		h.s.W.Apply("c1", -1)
+	}
+	return verifsim.Decision{}
+}
+func (h *c16RaceHook) AfterSQL(c *verifsim.SQLCall, res string) {}
